@@ -446,7 +446,10 @@ def threadsafe_async_cache(
             wait_event: Awaitable[bool] = event.wait()
             if running_loop is not caching_loop:
                 try:
-                    wait_fut = run_coro_ts(wait_event, caching_loop)
+                    wait_fut = run_coro_ts(
+                        _wait_unless_cancelled(wait_event),
+                        caching_loop,
+                    )
                 except RuntimeError:  # caching loop most likely closed
                     continue  # loop around and try again
                 wait_event = aio.wrap_future(wait_fut)
@@ -476,6 +479,19 @@ def threadsafe_async_cache(
                 raise
 
     return _wrapper  # type: ignore[return-value]
+
+
+async def _wait_unless_cancelled(aw: Awaitable[bool]) -> bool:
+    """
+    Wait for the given awaitable on its own loop on behalf of a task in
+    another loop. If this loop shuts down first, return False instead of
+    propagating the cancellation to the other loop's task so that it
+    loops around and checks the cache again.
+    """
+    try:
+        return await aw
+    except aio.CancelledError:
+        return False
 
 
 _BufferFunc = Callable[[Set[T]], Awaitable[None]]
